@@ -404,7 +404,14 @@ func sqSplit(toks []string) (tmpl *sqv, rest []string) {
 	return nil, nil
 }
 
-func sqExec(toks []string) string {
+// the interpreter prints diagnostics ("alert: did not find SexpStackmark …") on stdout: keep
+// them out of the answer stream (`quiet`, ch_togo.go)
+func sqExec(toks []string) (ans string) {
+	quiet(func() { ans = sqExec1(toks) })
+	return
+}
+
+func sqExec1(toks []string) string {
 	if len(toks) < 4 {
 		return "bad-op"
 	}
